@@ -36,10 +36,28 @@ CLAIMED = {
             "float fields compared in fixed point", "6/C12"),
 }
 
+LIB = ("TLA+ model of the library component (spec/lib/*.tla) model-checked by TLC on a small universe, and bound to the "
+       "code by trace validation: a driver performs calls on the real jumanji objects and logs each call with an oracle table "
+       "computed from the native API; TLC judges every logged call against the law in the trace specification")
+CLAIMED.update({
+    "C02": ("TLC trace validation with a memo-table monitor (PureFn.tla) over calls in eager/jit/vmap/scan/fresh-instance modes and histories", LIB,
+            "results for identical arguments are classed with exact equality on ints/bools and 2e-5 relative tolerance on floats", "6/C02"),
+    "C13": ("TLC trace validation of AutoResetWrapper calls (jit, vmap, scan, eager) on all environments against Wrappers.tla; MC_AutoReset freshness over split-terms", LIB,
+            "oracle table from the unwrapped environment; keys/actions sampled", "6/C13"),
+    "C14": ("TLC trace validation of VmapWrapper / VmapAutoResetWrapper / Vmap(AutoReset) on all environments; MC_AutoReset refinement over all termination patterns", LIB,
+            "batch sizes 1..8; termination patterns arise from tiny time limits and illegal actions", "6/C14"),
+    "C15": ("TLC trace validation of gym / dm_env / MultiToSingle adapter calls against Adapters.tla (specification-side key schedule); MC_Adapters", LIB,
+            "oracle table from native reset/step and jax.random.split", "6/C15"),
+    "C16": ("TLC trace validation of jumanji.specs method calls against SpecsAlgebra.tla; MC_SpecsAlgebra laws over a small universe", LIB,
+            "floats via exact monotone integer image; NaN not probed", "6/C16"),
+    "C18": ("TLC trace validation of parse/register/make calls against Registry.tla (character-level parser model); MC_Registry over all strings up to length 4-5", LIB,
+            "Sokoban-v0 dataset unavailable offline", "6/C18"),
+    "C19": ("TLC trace validation of tree_utils / pytree equality helper calls against TreeUtils.tla; MC_TreeUtils data-level laws", LIB,
+            "per-index views computed with numpy indexing", "6/C19"),
+})
+
 PENDING = {
-    "C02": "pending: purity monitor (PureFn.tla) not yet built in this round",
-    "C13": "pending", "C14": "pending", "C15": "pending", "C16": "pending", "C17": "pending", "C18": "pending",
-    "C19": "pending",
+    "C17": "pending: RubiksCube / SlidingTilePuzzle specifications are being written; will be claimed once their trace modules exist",
 }
 
 
